@@ -96,13 +96,15 @@ def c16_inputs(ctx, job):
     if fam == "texts":
         for item in job["items"]:
             yield item["tid"], {"m.emb": item["text"]}, "m.emb"
-    elif fam in ("bytes", "soup", "gram", "nest", "imports", "valid", "xmod"):
+    elif fam in ("bytes", "soup", "gram", "nest", "imports", "valid", "xmod", "semsoup"):
         for idx in range(job["start"], job["start"] + job["count"]):
             r = pi.rng_for(seed, fam, idx)
             tid = "%s:%d" % (fam, idx)
             if fam == "xmod":
                 files, main, name = pi.gen_xmod(r, idx)
                 yield "%s:%s" % (tid, name), files, main
+            elif fam == "semsoup":
+                yield tid, {"m.emb": pi.gen_semsoup(r)}, "m.emb"
             elif fam == "bytes":
                 yield tid, {"m.emb": pi.gen_bytes(r)}, "m.emb"
             elif fam == "soup":
@@ -151,7 +153,7 @@ def regenerate_input(tid, seed):
     ctx = Ctx(os.devnull)
     parts = tid.split(":")
     fam = parts[0]
-    if fam in ("bytes", "soup", "gram", "nest", "imports", "valid", "xmod"):
+    if fam in ("bytes", "soup", "gram", "nest", "imports", "valid", "xmod", "semsoup"):
         job = {"fam": fam, "seed": seed, "start": int(parts[1]), "count": 1}
     elif fam == "corpus":
         job = {"fam": fam, "seed": seed, "names": [":".join(parts[1:])]}
